@@ -89,7 +89,7 @@ def fsListing (fs : Fs) : List String :=
 def splitBar (a : List String) : List (List String) :=
   a.foldr (fun s acc => if s = "|" then [] :: acc else match acc with | h :: t => (s :: h) :: t | [] => [[s]]) [[]]
 
-def c10Handlers : List (String × Handler) := [
+def c10Own : List (String × Handler) := [
   -- walk <tree> → the callbacks of filepath.Walk: path, d|f, visible
   ("walk", fun (a : List String) => match parseNode a with
     | some (t, []) => " ".intercalate ((t.walk []).map fun e => s!"{pathStr e.path}:{if e.isDir then "d" else "f"}:{if e.visible then 1 else 0}")
@@ -125,5 +125,8 @@ def c10Handlers : List (String × Handler) := [
     | [store, [p]] => toHex ((parseFs store).answer (parsePath p)).bytes
     | _ => "bad-op")
 ]
+
+/-- The C10 oracle also answers the C08 / C09 ops. -/
+def c10Handlers : List (String × Handler) := c09Handlers ++ c10Own
 
 end Oracle
